@@ -1223,6 +1223,10 @@ func (e *Env) callExpr(n *ast.CallExpr) Val {
 		}
 		h := vc.heapGet(e.st, byteHeap, arr2Sort("Int"))
 		return IntV(vc.cmp3(Sel(h, x.Reg), x.Off, x.Len, Sel(h, y.Reg), y.Off, y.Len), nil)
+	case "ifaceStr":
+		vc.declareFun("ifaceStr", []string{"Int"}, "Int")
+		r := IntV(app("ifaceStr", arg(0).S), types.Typ[types.String])
+		return r
 	case "sumlt":
 		// strict total order on checksum ids: the byte-wise (lexicographic) order of the 16 bytes
 		return BoolV(vc.sumLess(arg(0).S, arg(1).S))
